@@ -9,6 +9,7 @@ import (
 )
 
 func seekT(sub, tgt string) model.Op   { return model.Op{K: "seekT", Sub: sub, Tgt: tgt} }
+func stream(sub, where, sel string) model.Op { return model.Op{K: "stream", Sub: sub, Tgt: where, Sel: sel} }
 func pullW(sub string, max int) model.Op { return model.Op{K: "pull", Sub: sub, Max: max, Tgt: "wait"} }
 func reconfig(sub, what string) model.Op { return model.Op{K: "reconfig", Sub: sub, Tgt: what} }
 func snap(sub, name string) model.Op   { return model.Op{K: "snap", Sub: sub, Name: name} }
@@ -193,6 +194,21 @@ func init() {
 					ack("S0", "all"), ack("S0", "foreign"), ack("S1", "stale"),
 					modack("S0", "foreign", 0), nack("S1", "stale"),
 					tick("lease+"),
+				},
+			},
+			{
+				// acks / nacks / deadline extensions carried by StreamingPull requests
+				// (in the opening request and in later ones), through the real handler
+				ID: "C03/streaming-acks", Prop: "C03", Depth: d(tier, 7, 8), Drain: true,
+				Cfg: model.Cfg{Topics: []string{"T0"}, Subs: []model.SubCfg{
+					{Name: "S0", Topic: "T0"},
+				}},
+				Alphabet: []model.Op{
+					pub1("T0", "", 0),
+					pull("S0", 1), pull("S0", 10),
+					stream("S0", "plain", ""), stream("S0", "open-ack", "oldest"), stream("S0", "open-ack", "all"), stream("S0", "later-ack", "oldest"), stream("S0", "later-ack", "stale"),
+					stream("S0", "open-nack", "oldest"), stream("S0", "later-nack", "all"), stream("S0", "later-extend", "all"), stream("S0", "open-ack", "mixed"),
+					ack("S0", "oldest"), tick("lease+"),
 				},
 			},
 			{
